@@ -103,6 +103,7 @@ Theorem tie_widths : match Generated.gen_widths with
   | [oc; ic; wr; rd; cnt; sz] => 32 <= oc /\ 32 <= ic /\ 16 <= wr /\ 16 <= rd /\ 16 <= cnt /\ 16 <= sz
   | _ => False end.
 Proof. vm_compute. repeat split; discriminate. Qed.
-(* Dtostre.layout works on a buffer of 32 bytes: SCPI_DTOSTRE_BUFFER_SIZE *)
-Theorem tie_dtostre_buf : Generated.gen_dtostre_buf = Z.of_nat (length (fst (Dtostre.setb (repeat Dtostre.UNINIT 32) 0 0))) /\ Generated.gen_dtostre_buf = 32.
-Proof. split; reflexivity. Qed.
+(* Dtostre.layout works on a buffer of 32 bytes and is proved never to leave it (DtostreLayout.dtostre_layout): the work buffer of
+   SCPI_dtostre, SCPI_DTOSTRE_BUFFER_SIZE, has at least that size (a larger one changes nothing the model computes) *)
+Theorem tie_dtostre_buf : Z.of_nat (length (fst (Dtostre.setb (repeat Dtostre.UNINIT 32) 0 0))) = 32 /\ 32 <= Generated.gen_dtostre_buf.
+Proof. split; [reflexivity|vm_compute; discriminate]. Qed.
